@@ -33,6 +33,8 @@ type Stats struct {
 	SchedHash  uint64 `json:"sched_hash"`
 	Diverge    uint64 `json:"diverge"`
 	SpinSleeps uint64 `json:"spin_sleeps,omitempty"`
+	Deferrals  uint64 `json:"deferrals,omitempty"`
+	Mode       string `json:"mode,omitempty"`
 	NDec       int    `json:"ndec"`
 	Overflow   bool   `json:"overflow,omitempty"`
 }
@@ -235,6 +237,8 @@ type runAgg struct {
 	slowMs      int64
 	slowSeed    uint64
 	spins       uint64
+	deferrals   uint64
+	modes       map[string]int
 }
 
 // runParts runs every sub-check of a composite property and merges evidence.
@@ -390,6 +394,11 @@ func runCheck(id, tier string, seed int64) int {
 			agg.slowMs, agg.slowSeed = o.WallMs, r.Seed
 		}
 		agg.spins += o.Stats.SpinSleeps
+		agg.deferrals += o.Stats.Deferrals
+		if agg.modes == nil {
+			agg.modes = map[string]int{}
+		}
+		agg.modes[o.Stats.Mode]++
 		agg.simNs += o.SimNs
 		agg.events += o.Events
 		agg.picks += o.Stats.Picks
@@ -595,7 +604,7 @@ func writeEvidence(id string, p *Prop, tier string, seed int64, agg *runAgg, wal
 		"runs_per_hour":        int(float64(agg.runs) / wall * 3600),
 		"simulated_seconds":    float64(agg.simNs) / 1e9,
 		"events":               agg.events,
-		"scheduler":            map[string]any{"picks": agg.picks, "multi_candidate_picks": agg.multi, "yield_sites_visited": agg.sites, "yields_taken": agg.yields},
+		"scheduler":            map[string]any{"picks": agg.picks, "multi_candidate_picks": agg.multi, "yield_sites_visited": agg.sites, "yields_taken": agg.yields, "site_delay_deferrals": agg.deferrals, "runs_by_scheduling_mode": agg.modes},
 		"faults_fired":         agg.faults,
 		"probes":               agg.probes,
 		"distinct_shapes":      len(agg.shapes),
